@@ -1,2 +1,196 @@
-// Package c15: implementation-side ops, generators and oracles for property C15.
+// Package c15: poison records always raise the alarm, ordinary data never does (C15).
 package c15
+
+import (
+	"bytes"
+	"context"
+	"errors"
+	"fmt"
+
+	"github.com/cossacklabs/acra/cmd/acra-translator/common"
+	"github.com/cossacklabs/acra/crypto"
+	poisonpkg "github.com/cossacklabs/acra/poison"
+
+	"verifharness/internal/core"
+	env "verifharness/internal/envops"
+)
+
+// counting intrusion callback
+type counter struct {
+	n   int
+	err bool
+}
+
+func (c *counter) Call() error {
+	c.n++
+	if c.err {
+		return errors.New("verif: callback error")
+	}
+	return nil
+}
+
+func storage(has, cbErr bool) (*poisonpkg.CallbackStorage, *counter) {
+	st := poisonpkg.NewCallbackStorage()
+	cnt := &counter{err: cbErr}
+	if has {
+		st.AddCallback(cnt)
+	}
+	return st, cnt
+}
+
+func init() {
+	core.RegisterProp("C15", run)
+	// create kind [poison kv ×4] dataLen rnd
+	core.Register("C15.create", func(a []string) (res string) {
+		pk := env.ParseKV(a[1:5])
+		ks := &env.TKS{Poison: pk}
+		env.WithRand(core.UnHex(a[6]), func() {
+			var b []byte
+			var err error
+			if a[0] == "struct" {
+				b, err = poisonpkg.CreatePoisonRecord(ks, core.Atoi(a[5]))
+			} else {
+				b, err = poisonpkg.CreateSymmetricPoisonRecord(ks, core.Atoi(a[5]))
+			}
+			if err != nil {
+				res = core.Err
+			} else {
+				res = core.OkHex(b)
+			}
+		})
+		return
+	})
+	// proxy hasCb cbErr [poison kv ×4] [client kv ×4] data  – the callback stack of the SQL proxies
+	core.Register("C15.proxy", func(a []string) string {
+		has, cbErr := a[0] == "true", a[1] == "true"
+		pk, kv := env.ParseKV(a[2:6]), env.ParseKV(a[6:10])
+		st, cnt := storage(has, cbErr)
+		reg := crypto.NewRegistryHandler(kv)
+		det := crypto.NewEnvelopeDetector()
+		w := crypto.NewOldContainerDetectorWrapper(det)
+		if st.HasCallbacks() {
+			pd := crypto.NewPoisonRecordsRecognizer(&env.TKS{Poison: pk}, reg)
+			pd.SetPoisonRecordCallbacks(st)
+			det.AddCallback(pd)
+		}
+		det.AddCallback(crypto.NewDecryptHandler(kv, reg))
+		_, out, err := w.OnColumn(env.Ctx([]byte("client")), core.UnHex(a[10]))
+		// the value is delivered only now: every callback invocation counted so far happened before delivery
+		if err != nil {
+			return fmt.Sprintf("fatal %d", cnt.n)
+		}
+		return fmt.Sprintf("ok %s %d", core.Hex(out), cnt.n)
+	})
+	// translator hasCb cbErr [poison kv ×4] [client kv ×4] kind data – AcraTranslator Decrypt / DecryptSym
+	core.Register("C15.translator", func(a []string) string {
+		has, cbErr := a[0] == "true", a[1] == "true"
+		pk, kv := env.ParseKV(a[2:6]), env.ParseKV(a[6:10])
+		st, cnt := storage(has, cbErr)
+		ks := &env.TKS{Clients: map[string]*env.KV{"client": kv}, Poison: pk}
+		svc, err := common.NewTranslatorService(&common.TranslatorData{Keystorage: ks, PoisonRecordCallbacks: st})
+		if err != nil {
+			panic("harness: " + err.Error())
+		}
+		var out []byte
+		if a[10] == "struct" {
+			out, err = svc.Decrypt(context.Background(), core.UnHex(a[11]), []byte("client"), nil)
+		} else {
+			out, err = svc.DecryptSym(context.Background(), core.UnHex(a[11]), []byte("client"), nil)
+		}
+		if err != nil {
+			return fmt.Sprintf("err %d", cnt.n)
+		}
+		return fmt.Sprintf("ok %s %d", core.Hex(out), cnt.n)
+	})
+}
+
+func parse(out string) (kind string, data []byte, alarms int) {
+	var h string
+	if n, _ := fmt.Sscanf(out, "ok %s %d", &h, &alarms); n == 2 {
+		return "ok", core.UnHex(h), alarms
+	}
+	if n, _ := fmt.Sscanf(out, "fatal %d", &alarms); n == 1 {
+		return "fatal", nil, alarms
+	}
+	if n, _ := fmt.Sscanf(out, "err %d", &alarms); n == 1 {
+		return "err", nil, alarms
+	}
+	return out, nil, 0
+}
+
+func run(r *core.Run) {
+	r.Rule = "poison records of both kinds under key histories of length 1–3 (record sealed under any key of the history), alone or embedded at offsets 0–32 in junk/tag-rich columns, through the SQL-proxy callback stack and AcraTranslator decrypt; negatives: random bytes, client envelopes, bit-flipped/truncated poison records, callbacks not configured, poison keys missing; non-trivial = a column holding an (intact or damaged) envelope; distinct by column bytes"
+	rd := r.Rand
+	n := r.N(60, 2500)
+	for i := 0; i < n; i++ {
+		pk := env.NewKV(rd, 1+rd.Intn(3), 1+rd.Intn(3)) // poison key history, newest first
+		kv := env.NewKV(rd, 1+rd.Intn(2), 1+rd.Intn(2)) // the client's own keys
+		kind := []string{"struct", "block"}[rd.Intn(2)]
+		if i%5 == 2 { // poison symmetric-key history in which a newer key has the same 2-byte key id as the rotated one
+			a, b := env.CollidingKeys(rd, nil)
+			pk.Syms = [][]byte{a, b}
+			pk.Sym = a
+			kind = "block"
+		}
+		// the record may have been created before a poison-key rotation
+		wpk := *pk
+		wi := rd.Intn(len(pk.Privs))
+		wpk.Pub = env.PubOf(pk.Privs[wi])
+		wpk.Sym = pk.Syms[rd.Intn(len(pk.Syms))]
+		if i%5 == 2 {
+			wpk.Sym = pk.Syms[1] // sealed under the rotated key; the colliding newer key is tried first
+		}
+		dl := 1 + rd.Intn(99)
+		r.Begin(fmt.Sprintf("poison-%d", i), true, "kind:"+kind, "case:poison")
+		out := r.Do(fmt.Sprintf("C15.create %s %s %d %s", kind, wpk.Tokens(), dl, core.Hex(rd.Bytes(dl+96))))
+		if !r.Check(len(out) > 3 && out[:3] == "ok ", "poison-create", "cannot create a poison record: "+out) {
+			continue
+		}
+		P := core.UnHex(out[3:])
+		pre, suf := env.Junk(rd, 32), env.Junk(rd, 32)
+		if rd.Chance(25) {
+			pre, suf = nil, nil
+		}
+		col := append(append(append([]byte{}, pre...), P...), suf...)
+		// 1. callbacks configured: alarm raised (before the value is delivered), value unchanged for the client
+		res, data, alarms := parse(r.Do(fmt.Sprintf("C15.proxy true false %s %s %s", pk.Tokens(), kv.Tokens(), core.Hex(col))))
+		r.Check(res == "ok" && alarms >= 1, "poison-missed", fmt.Sprintf("poison %s record (key #%d of %d) embedded at offset %d did not trigger the callbacks (%s, alarms=%d)", kind, wi, len(pk.Privs), len(pre), res, alarms))
+		r.Check(res != "ok" || bytes.Equal(data, col), "poison-altered", "column holding a poison record was altered for a client without poison keys")
+		// a callback that returns an error stops delivery
+		res, _, alarms = parse(r.Do(fmt.Sprintf("C15.proxy true true %s %s %s", pk.Tokens(), kv.Tokens(), core.Hex(col))))
+		r.Check(res == "fatal" && alarms >= 1, "poison-missed-err", "failing callback: expected an error after the alarm, got "+res)
+		// translator decrypt of the record alone
+		res, _, alarms = parse(r.Do(fmt.Sprintf("C15.translator true false %s %s %s %s", pk.Tokens(), kv.Tokens(), kind, core.Hex(P))))
+		r.Check(res == "err" && alarms >= 1, "poison-missed-translator", fmt.Sprintf("AcraTranslator decrypt of a poison %s record: %s alarms=%d", kind, res, alarms))
+		// 2. callbacks not configured: no check, no alarm
+		r.Begin(fmt.Sprintf("nocb-%d", i), true, "case:no-callbacks")
+		_, _, alarms = parse(r.Do(fmt.Sprintf("C15.proxy false false %s %s %s", pk.Tokens(), kv.Tokens(), core.Hex(col))))
+		r.Check(alarms == 0, "alarm-without-callbacks", "alarm although no callbacks are configured")
+		// 3. poison keys missing: skipped
+		none := &env.KV{NoPub: true, NoPrivs: true, NoSym: true, NoSyms: true}
+		_, _, alarms = parse(r.Do(fmt.Sprintf("C15.proxy true false %s %s %s", none.Tokens(), kv.Tokens(), core.Hex(col))))
+		r.Check(alarms == 0, "alarm-without-keys", "alarm although no poison keys exist")
+		// 4. negatives: damaged records, client envelopes, random data never alarm
+		r.Begin(fmt.Sprintf("neg-%d", i), true, "case:negative")
+		var negs [][]byte
+		x := append([]byte{}, P...)
+		x[12+rd.Intn(len(x)-12)] ^= 1 << uint(rd.Intn(8)) // flip inside the envelope (header of the container is not authenticated)
+		negs = append(negs, x, P[:12+rd.Intn(len(P)-12)], rd.Bytes(rd.Intn(200)), env.Junk(rd, 200))
+		if cv, ok := env.Protect(r, kind, kv, rd.Bytes(1+rd.Intn(50))); ok {
+			negs = append(negs, cv) // an ordinary protected value of a client
+		}
+		okv := env.NewKV(rd, 1, 1)
+		if cv, ok := env.Protect(r, kind, okv, rd.Bytes(1+rd.Intn(50))); ok {
+			negs = append(negs, cv) // … of another client
+		}
+		for j, ng := range negs {
+			col := append(append(append([]byte{}, env.Junk(rd, 16)...), ng...), env.Junk(rd, 16)...)
+			res, _, alarms := parse(r.Do(fmt.Sprintf("C15.proxy true false %s %s %s", pk.Tokens(), kv.Tokens(), core.Hex(col))))
+			r.Check(res == "ok" && alarms == 0, "false-alarm", fmt.Sprintf("non-poison data (negative class %d) triggered the poison callbacks (%s, alarms=%d)", j, res, alarms))
+			if j < 2 || j >= 4 {
+				_, _, alarms = parse(r.Do(fmt.Sprintf("C15.translator true false %s %s %s %s", pk.Tokens(), kv.Tokens(), kind, core.Hex(ng))))
+				r.Check(alarms == 0, "false-alarm-translator", fmt.Sprintf("non-poison data (negative class %d) triggered the poison callbacks in AcraTranslator", j))
+			}
+		}
+	}
+}
